@@ -25,6 +25,9 @@ type UnrollOptions struct {
 	// copy). Loops that call into hashes, ciphers, readers or decoders are the algorithmic loops the client's
 	// rules describe as loops and stay as they are.
 	DataOnly bool
+	// StructCopies, if set, names the functions in which whole-struct copies between locals are split into
+	// per-field copies even when no loop was unrolled (functions a helper was inlined into).
+	StructCopies func(*Function) bool
 }
 
 // NormalizeLoops unrolls the constant-trip loops of every function in fns and forwards local aggregate
@@ -61,6 +64,10 @@ func NormalizeLoops(fns []*Function, opt UnrollOptions) []string {
 		if changed {
 			scalarizeStructCopies(f)
 			scalarizeArrayValueReads(f)
+		} else if opt.StructCopies != nil && opt.StructCopies(f) && hasLocalStructCopy(f) {
+			// a struct value handed from one local to another (the result of an inlined accessor that returns a
+			// small struct, a value receiver): per-field copies, which the forwarding below resolves
+			scalarizeStructCopies(f)
 		}
 		if k := forwardAggregates(f); k > 0 {
 			notes = append(notes, fmt.Sprintf("%s: %d load(s) of local table entries replaced by the stored values", f.String(), k))
@@ -475,7 +482,7 @@ func unrollOne(f *Function, opt UnrollOptions) (string, bool) {
 		}
 		// a loop that calls out is unrolled only when it walks a local table (its bound is the length of a
 		// composite literal), never when it merely repeats a constant number of times
-		if hasCalls && !constLenUsed {
+		if hasCalls && !constLenUsed && !walksLocalTable(l) {
 			continue
 		}
 		if !outsideUsesOK(f, l) {
@@ -486,6 +493,56 @@ func unrollOne(f *Function, opt UnrollOptions) (string, bool) {
 		return fmt.Sprintf("loop at line %d unrolled (%d iteration(s))", pos.Line, T), true
 	}
 	return "", false
+}
+
+// hasLocalStructCopy: some whole-struct load from a local is stored into another local.
+func hasLocalStructCopy(f *Function) bool {
+	for _, b := range f.Blocks {
+		for _, ins := range b.Instrs {
+			st, ok := ins.(*Store)
+			if !ok {
+				continue
+			}
+			if _, isLocal := st.Addr.(*Alloc); !isLocal {
+				continue
+			}
+			ld, ok := st.Val.(*UnOp)
+			if !ok || ld.Op != token.MUL {
+				continue
+			}
+			if _, isStruct := ld.Type().Underlying().(*types.Struct); !isStruct {
+				continue
+			}
+			if a, ok := ld.X.(*Alloc); ok && !a.Heap || ok && a.Comment == "complit" {
+				return true
+			}
+		}
+	}
+	return false
+}
+
+// walksLocalTable: the loop reads a table made by the function itself (a slice or array literal) at an index
+// that varies with the iteration - `for _, x := range []T{a, b, c}` once go/ssa has folded len of the literal.
+func walksLocalTable(l *natLoop) bool {
+	for b := range l.body {
+		for _, ins := range b.Instrs {
+			ia, ok := ins.(*IndexAddr)
+			if !ok {
+				continue
+			}
+			if _, isK := ia.Index.(*Const); isK {
+				continue
+			}
+			x := ia.X
+			if sl, ok := x.(*Slice); ok && sl.Low == nil && sl.High == nil {
+				x = sl.X
+			}
+			if a, ok := x.(*Alloc); ok && (a.Comment == "slicelit" || a.Comment == "complit") && !l.body[a.Block()] {
+				return true
+			}
+		}
+	}
+	return false
 }
 
 // exitTargets: blocks outside the loop with a predecessor inside.
